@@ -192,6 +192,17 @@ def replay_file(doc):
         rows = sm.native_group_step(rp["hv"], rp["blocks"], rp["graft"], rp["alias"])
         bad = sm.native_mismatches(rows)
         return bool(bad), "; ".join(bad) or "post-state equals the documented rule"
+    if rp.get("kind") == "e2e":
+        from checks import e2e
+        cfg, shapes, hist = e2e.random_case(rp["seed"])
+        try:
+            bad = e2e.run_history(cfg, shapes, hist, rp["seed"])
+        except BaseException as ex:  # noqa
+            bad = f"real optimizer raised {type(ex).__name__}: {ex}"
+        return bool(bad), f"config {cfg} shapes {shapes} presence {hist}: {bad}"
+    if rp.get("kind") == "stepflags":
+        from checks import stepflags
+        return stepflags.replay_flags(rp, m)
     if rp.get("kind") == "plist":
         from checks import plist
         return plist.replay_plist(rp)
@@ -224,3 +235,29 @@ def run_case(case, tier, seed):
         from checks import stepflags
         return stepflags.run(case, tier)
     raise KeyError(case)
+
+
+# ---- bounded stand-in: the real optimizer end to end against the float64 reference interpreter --------------
+
+
+def bounded(tier, seed):
+    from checks import e2e
+    n = 60 if tier == "quick" else 1200
+    evals, viol, distinct, samples = 0, [], set(), []
+    for k in range(n):
+        sd = seed * 100000 + k
+        cfg, shapes, hist = e2e.random_case(sd)
+        try:
+            bad = e2e.run_history(cfg, shapes, hist, sd)
+        except BaseException as ex:  # noqa
+            bad = f"real optimizer raised {type(ex).__name__}: {ex}"
+        evals += 1
+        distinct.add(repr((cfg, shapes, hist)))
+        if len(samples) < 2:
+            samples.append(dict(config={k2: str(v) for k2, v in cfg.items()}, shapes=[list(s) for s in shapes], presence_history=hist))
+        if bad and len(viol) < 5:
+            viol.append(dict(ob=f"bounded/end-to-end[seed={sd}]", func="DistributedShampoo.step", input=dict(config={k2: str(v) for k2, v in cfg.items()}, shapes=shapes, history=hist),
+                             text="real optimizer deviates from the documented update rule", detail=bad, replay=dict(kind="e2e", seed=sd)))
+    return dict(evaluations=evals, distinct_nontrivial=len(distinct),
+                rule="seeded random configurations (all grafting kinds, decay modes, momentum/Nesterov, beta3, bias correction, root overrides, ignored dims, blocking/merging, refresh schedules) x 1..3 parameters of order 0..4 x 4..8 steps with absent gradients; real optimizer vs an independent float64 reference of the documented algorithm; parameters and all checkpointable state compared after every step; distinct = distinct (config, shapes, history)",
+                samples=samples, bound=f"{n} seeded cases, float64, tolerance 3e-5 (lr and bias corrections are float32 in the real step)", violations=viol)
